@@ -153,7 +153,16 @@ func (p *provider) watchChanges(ctx context.Context, rsf RuleSetFetcher) error {
 	p.l.Debug().Msg("Retrieving rule set")
 
 	ruleSets, err := rsf.FetchRuleSets(ctx)
-	if err != nil {
+
+	var invalid *invalidRuleSetsError
+	if errors.As(err, &invalid) {
+		// the blobs without a valid rule set keep what has been loaded from them before,
+		// the other ones are processed as usual
+		p.l.Warn().
+			Err(err).
+			Str("_endpoint", rsf.ID()).
+			Msg("Failed to decode some of the rule sets")
+	} else if err != nil {
 		if errors.Is(err, context.Canceled) {
 			p.l.Debug().Msg("Watcher closed")
 
@@ -182,20 +191,27 @@ func (p *provider) watchChanges(ctx context.Context, rsf RuleSetFetcher) error {
 		return nil
 	}
 
-	if err = p.ruleSetsUpdated(ruleSets, state, rsf.ID()); err != nil {
+	var unreadableIDs []string
+	if invalid != nil {
+		unreadableIDs = invalid.sources
+	}
+
+	if err = p.ruleSetsUpdated(ruleSets, state, rsf.ID(), unreadableIDs...); err != nil {
 		p.l.Warn().Err(err).Str("_endpoint", rsf.ID()).Msg("Failed to apply rule set changes")
 	}
 
 	return nil
 }
 
-func (p *provider) ruleSetsUpdated(ruleSets []*rule_config.RuleSet, state BucketState, buketID string) error {
+func (p *provider) ruleSetsUpdated(
+	ruleSets []*rule_config.RuleSet, state BucketState, buketID string, unreadableIDs ...string,
+) error {
 	// check which were present in the past and are not present now
 	// and which are new
 	currentIDs := toRuleSetIDs(ruleSets)
 	oldIDs := maps.Keys(state)
 
-	removedIDs := slicex.Subtract(oldIDs, currentIDs)
+	removedIDs := slicex.Subtract(slicex.Subtract(oldIDs, currentIDs), unreadableIDs)
 	newIDs := slicex.Subtract(currentIDs, oldIDs)
 
 	var errs error
